@@ -5,6 +5,7 @@ package sched
 import (
 	"context"
 	"fmt"
+	"os"
 	"strings"
 	"sync"
 	"testing"
@@ -43,7 +44,7 @@ const metaName = ".fsutil-metadata"
 // needsContent: a conforming receiver must request exactly the regular non-link
 // files whose identity differs from what the destination holds.
 func needsContent(st *types.Stat, prior fsmodel.Tree) bool {
-	if st.Mode&uint32(0xfff80000) != 0 || st.Linkname != "" { // not a plain regular file
+	if st.Mode&uint32(os.ModeType) != 0 || st.Linkname != "" { // not a plain regular file
 		return false
 	}
 	for _, ps := range memfs.Stats(prior) { // the destination as a walk would describe it
@@ -212,7 +213,7 @@ func refSendBody(sc Scn, src, dst fsmodel.Tree, destDir string, res *RefSendRes)
 					case dup:
 						mon("REQ %d sent twice", id)
 						continue
-					case stats[id].Mode&uint32(0xfff80000) != 0 || stats[id].Linkname != "":
+					case stats[id].Mode&uint32(os.ModeType) != 0 || stats[id].Linkname != "":
 						mon("REQ %d for %q which is not a regular non-link file (mode %o link %q)", id, stats[id].Path, stats[id].Mode, stats[id].Linkname)
 						continue
 					case !needsContent(stats[id], dst):
